@@ -7,6 +7,7 @@
 #[path = "../../sim/src/core/tape.rs"]
 #[allow(dead_code)]
 mod tape;
+mod c09;
 
 use identity_did::CoreDID;
 use identity_eddsa_verifier::EdDSAJwsVerifier;
@@ -475,8 +476,22 @@ fn run_history(seed: u64, idx: u64, work: &str, replay_tape: Option<Vec<u32>>) -
   (out, t.rec)
 }
 
+/// One history of a tier: (trace, violations, operations, faults fired, recorded tape).
+type TierRun = (Vec<String>, Vec<(String, String, String)>, usize, u32, Vec<u32>);
+
+fn run_tier_history(tier: &str, seed: u64, idx: u64, work: &str, replay_tape: Option<Vec<u32>>) -> TierRun {
+  if tier == "c09" {
+    let (o, tape) = c09::run_history(seed, idx, work, replay_tape);
+    (o.trace, o.violations, o.ops, o.faults, tape)
+  } else {
+    let (o, tape) = run_history(seed, idx, work, replay_tape);
+    (o.trace, o.violations, o.ops, 0, tape)
+  }
+}
+
 fn main() {
-  let args: Vec<String> = std::env::args().collect();
+  // idsim-stronghold [c09] <histories>   |   idsim-stronghold replay <file>
+  let mut args: Vec<String> = std::env::args().collect();
   let verif = std::env::var("VERIF_DIR").unwrap_or_else(|_| "/verif".to_owned());
   let work = format!("{verif}/.work/stronghold");
   let _ = std::fs::create_dir_all(&work);
@@ -488,59 +503,77 @@ fn main() {
   if args.get(1).map(String::as_str) == Some("replay") {
     let v: serde_json::Value = serde_json::from_str(&std::fs::read_to_string(&args[2]).expect("replay file")).expect("json");
     let tape: Vec<u32> = serde_json::from_value(v["tape"].clone()).unwrap_or_default();
-    let (out, _) = run_history(v["seed"].as_u64().unwrap_or(0), v["run"].as_u64().unwrap_or(0), &work, Some(tape));
-    for l in &out.trace {
+    let tier = v["tier"].as_str().unwrap_or("c15").to_owned();
+    let property = v["property"].as_str().unwrap_or("C15").to_owned();
+    let (trace, violations, _, _, _) = run_tier_history(&tier, v["seed"].as_u64().unwrap_or(0), v["run"].as_u64().unwrap_or(0), &work, Some(tape));
+    for l in &trace {
       println!("{l}");
     }
     let inv = v["invariant"].as_str().unwrap_or("");
-    if out.violations.iter().any(|x| x.0 == inv) {
-      println!("VIOLATION property=C15 replay={}", args[2]);
+    if violations.iter().any(|x| x.0 == inv) {
+      println!("VIOLATION property={property} replay={}", args[2]);
       std::process::exit(1);
     }
     eprintln!("replay did not reproduce {inv}");
     std::process::exit(2);
   }
+  let tier = if args.get(1).map(String::as_str) == Some("c09") {
+    args.remove(1);
+    "c09"
+  } else {
+    "c15"
+  };
+  let property = if tier == "c09" { "C09" } else { "C15" };
   let runs: u64 = args.get(1).and_then(|v| v.parse().ok()).unwrap_or(300);
   let seed: u64 = std::env::var("VERIF_SEED").ok().and_then(|v| v.parse().ok()).unwrap_or(0x1D5EED);
   let start = std::time::Instant::now();
   let mut ops = 0usize;
+  let mut faults = 0u64;
   let mut exit = 0;
   let mut reported: Vec<(String, String)> = Vec::new();
   let mut sample: Vec<String> = Vec::new();
   let mut known_lines = 0;
   for idx in 0..runs {
-    let (out, tape) = run_history(seed, idx, &work, None);
-    ops += out.ops;
+    let (trace, violations, n_ops, n_faults, tape) = run_tier_history(tier, seed, idx, &work, None);
+    ops += n_ops;
+    faults += n_faults as u64;
     if idx == 0 {
-      sample = out.trace.clone();
+      sample = trace.clone();
     }
-    for (inv, sig, msg) in &out.violations {
+    for (inv, sig, msg) in &violations {
       if reported.contains(&(inv.clone(), sig.clone())) {
         continue;
       }
       reported.push((inv.clone(), sig.clone()));
-      let k = known.iter().find(|e| e["property"] == "C15" && e["invariant"] == inv.as_str() && e["signature"] == sig.as_str());
+      let k = known.iter().find(|e| e["property"] == property && e["invariant"] == inv.as_str() && e["signature"] == sig.as_str());
       if let Some(k) = k {
-        println!("KNOWN-FINDING: property=C15 invariant={inv} signature={sig} first_run={idx} {}", k["what_fails"].as_str().unwrap_or(""));
+        println!("KNOWN-FINDING: property={property} invariant={inv} signature={sig} first_run={idx} {}", k["what_fails"].as_str().unwrap_or(""));
         known_lines += 1;
         continue;
       }
-      let path = format!("{verif}/replays/C15-stronghold-{seed}-{idx}.json");
+      let path = format!("{verif}/replays/{property}-stronghold-{seed}-{idx}.json");
       let _ = std::fs::create_dir_all(format!("{verif}/replays"));
       let _ = std::fs::write(
         &path,
-        serde_json::to_string_pretty(&serde_json::json!({"format":1,"engine":"stronghold","property":"C15","invariant":inv,"signature":sig,
-          "message":msg,"seed":seed,"run":idx,"tape":tape,"trace":out.trace}))
+        serde_json::to_string_pretty(&serde_json::json!({"format":1,"engine":"stronghold","tier":tier,"property":property,"invariant":inv,"signature":sig,
+          "message":msg,"seed":seed,"run":idx,"tape":tape,"trace":trace}))
         .unwrap(),
       );
-      println!("VIOLATION property=C15 replay={path} invariant={inv} signature={sig} message={msg}");
+      println!("VIOLATION property={property} replay={path} invariant={inv} signature={sig} message={msg}");
       exit = 1;
     }
   }
-  let frag = serde_json::json!({"tier":"stronghold_sequential","histories":runs,"operations":ops,"violation_groups":reported.len(),
-    "known_findings_printed":known_lines,"wall_s":start.elapsed().as_secs_f64(),"sample_history":sample,
-    "note":"real StrongholdStorage, sequential contract only; Stronghold internals are outside the simulator"});
-  let _ = std::fs::write(format!("{verif}/.work/stronghold_tier.json"), serde_json::to_string_pretty(&frag).unwrap());
-  eprintln!("[stronghold C15] histories={runs} ops={ops} violation_groups={} exit={exit}", reported.len());
+  let frag = if tier == "c09" {
+    serde_json::json!({"tier":"stronghold_snapshot_write_faults","histories":runs,"operations":ops,"snapshot_write_faults_fired":faults,
+      "violation_groups":reported.len(),"known_findings_printed":known_lines,"wall_s":start.elapsed().as_secs_f64(),"sample_history":sample,
+      "note":"real StrongholdStorage and JwkDocumentExt; the write of the snapshot file fails at tape-chosen occurrences (hook identity_stronghold::verif_hooks); sequential"})
+  } else {
+    serde_json::json!({"tier":"stronghold_sequential","histories":runs,"operations":ops,"violation_groups":reported.len(),
+      "known_findings_printed":known_lines,"wall_s":start.elapsed().as_secs_f64(),"sample_history":sample,
+      "note":"real StrongholdStorage, sequential contract only; Stronghold internals are outside the simulator"})
+  };
+  let frag_file = if tier == "c09" { "stronghold_c09_tier.json" } else { "stronghold_tier.json" };
+  let _ = std::fs::write(format!("{verif}/.work/{frag_file}"), serde_json::to_string_pretty(&frag).unwrap());
+  eprintln!("[stronghold {property}] histories={runs} ops={ops} faults={faults} violation_groups={} exit={exit}", reported.len());
   std::process::exit(exit);
 }
